@@ -67,7 +67,7 @@ struct C05 : Property
 		{
 			Op op;
 			op.kind = i < 3 ? std::string("new") : r.pick(en);
-			op.a = {(int64_t)r.below(8), (int64_t)r.below(9) - 1, (int64_t)r.below(8), (int64_t)r.below(8)};
+			op.a = {(int64_t)r.below(8), (int64_t)r.below(9) - 1, (int64_t)r.below(40), (int64_t)r.below(8)};
 			if (op.kind == "new")
 				op.a[1] = (i < 3) ? (int64_t)r.below(2) : (int64_t)r.below(7);
 			if (op.kind == "parse")
@@ -777,7 +777,7 @@ struct C05 : Property
 			}
 			else if (op.kind == "patch")
 			{
-				static const char *patches[8] = {
+				static const char *patches[10] = {
 				    "[{\"op\":\"add\",\"path\":\"/k0\",\"value\":[1,{\"z\":2}]}]",
 				    "[{\"op\":\"remove\",\"path\":\"/k0\"}]",
 				    "[{\"op\":\"replace\",\"path\":\"/k1\",\"value\":\"r\"},{\"op\":\"remove\",\"path\":\"/k2\"}]",
@@ -785,7 +785,9 @@ struct C05 : Property
 				    "[{\"op\":\"copy\",\"from\":\"/k1\",\"path\":\"/k2\"},{\"op\":\"add\",\"path\":\"/k9/x\",\"value\":1}]",
 				    "[{\"op\":\"add\",\"path\":\"/-\",\"value\":{\"n\":null}},{\"op\":\"remove\",\"path\":\"/0\"}]",
 				    "[{\"op\":\"move\",\"from\":\"/0\",\"path\":\"/1\"},{\"op\":\"test\",\"path\":\"/0\",\"value\":7}]",
-				    "[{\"op\":\"add\",\"path\":\"\",\"value\":{\"fresh\":[true]}}]"};
+				    "[{\"op\":\"add\",\"path\":\"\",\"value\":{\"fresh\":[true]}}]",
+				    "[{\"op\":\"remove\",\"path\":\"\"}]",
+				    "[{\"op\":\"move\",\"from\":\"/k1\",\"path\":\"/k1\"},{\"op\":\"copy\",\"from\":\"/k0\",\"path\":\"/k0/x\"}]"};
 				struct json_object *base = H(op.arg(0));
 				bool copy_from = op.arg(3) & 1;
 				int slot = free_slot(op.arg(1) < 0 ? 2 : op.arg(1));
@@ -795,7 +797,7 @@ struct C05 : Property
 					skipped = true; // move/copy inside a document that shares nodes between branches can close a cycle: JSON patch is defined on trees
 				else
 				{
-					std::string t = std::string(patches[op.arg(2) % 8]) + std::string(1, '\0');
+					std::string t = std::string(patches[op.arg(2) % 10]) + std::string(1, '\0');
 					disarm_faults(); // the patch document itself is built without faults
 					struct json_tokener *tok = new_tok(32, 0);
 					ExactBuf b(t);
